@@ -163,7 +163,8 @@ fn break_structure(rng: &mut Rng, kind: &str, text: &str) -> Option<(String, Str
                     continue;
                 }
                 skipping = false;
-                if !dropped && line.starts_with(&format!("{m}:")) {
+                if line.starts_with(&format!("{m}:")) {
+                    // every occurrence: a duplicate would keep the document valid
                     dropped = true;
                     skipping = true;
                     continue;
@@ -174,7 +175,25 @@ fn break_structure(rng: &mut Rng, kind: &str, text: &str) -> Option<(String, Str
                 return None;
             }
             // the paragraph that lost the field must still exist, otherwise the result may be valid again
-            let count = |t: &str| crate::model::segmenter::segment(t).map(|s| crate::model::segmenter::paragraphs(&s).len());
+            // runs of non-empty lines that contain at least one field line
+            let count = |t: &str| {
+                let mut n = 0;
+                let mut has_field = false;
+                for l in t.split('\n') {
+                    if l.is_empty() {
+                        if has_field {
+                            n += 1;
+                        }
+                        has_field = false;
+                    } else if !l.starts_with('#') && !l.starts_with(' ') && !l.starts_with('\t') {
+                        has_field = true;
+                    }
+                }
+                if has_field {
+                    n += 1;
+                }
+                n
+            };
             if count(&out) != count(text) {
                 return None;
             }
@@ -219,7 +238,38 @@ impl Scenario for C20 {
 
     fn generate(rng: &mut Rng, _tier: Tier, k: u64) -> Case {
         let kind = KINDS[(k as usize) % KINDS.len()];
-        let text = typed::instance(rng, kind);
+        let mut text = typed::instance(rng, kind);
+        if rng.chance(1, 6) {
+            // a whitespace-only continuation line inside a multi-line field: odd, but every reader takes it
+            let lines: Vec<&str> = text.split_inclusive('\n').collect();
+            // only between two non-blank continuation lines of one value
+            let conts: Vec<usize> = (1..lines.len()).filter(|i| lines[*i].starts_with(' ') && !lines[*i].trim().is_empty() && lines[*i - 1].starts_with(' ') && !lines[*i - 1].trim().is_empty()).collect();
+            if !conts.is_empty() {
+                let at = conts[rng.below(conts.len())];
+                let mut l: Vec<String> = lines.iter().map(|x| x.to_string()).collect();
+                l.insert(at, " \n".to_string());
+                text = l.concat();
+            }
+        }
+        if rng.chance(1, 8) {
+            // a duplicated field with a different value: the first one counts (that is what the lossless reader shows)
+            let lines: Vec<&str> = text.split_inclusive('\n').collect();
+            let singles: Vec<usize> = (0..lines.len()).filter(|i| !lines[*i].starts_with(' ') && !lines[*i].starts_with('#') && lines[*i].contains(": ") && (*i + 1 >= lines.len() || !lines[*i + 1].starts_with(' '))).collect();
+            if !singles.is_empty() {
+                let at = singles[rng.below(singles.len())];
+                let name = lines[at].split(':').next().unwrap_or("X").to_string();
+                if ["Section", "Maintainer", "Homepage", "Testsuite", "Standards-Version", "Tag", "Suite", "Label", "Origin", "Reason", "Author"].contains(&name.as_str()) {
+                    // appended at the end of that paragraph
+                    let mut end = at + 1;
+                    while end < lines.len() && lines[end] != "\n" {
+                        end += 1;
+                    }
+                    let mut l: Vec<String> = lines.iter().map(|x| x.to_string()).collect();
+                    l.insert(end, format!("{name}: second-occurrence\n"));
+                    text = l.concat();
+                }
+            }
+        }
         let epochs = [rng.next_u64(), rng.next_u64(), rng.next_u64()];
         if rng.chance(1, 5) {
             if let Some((variant, t)) = break_structure(rng, kind, &text) {
